@@ -24,7 +24,7 @@ BUDGET = {"quick": {"runs": 24000, "wall": 80}, "thorough": {"runs": 400000, "wa
 SHRINK_LISTS = ("ops",)
 PROBES = {"C20": ["stop:budget", "stop:patience", "stop:reject", "stop:tol", "step-after-stop",
                   "reset-after-stop", "reset-with-stale-patience", "exact-threshold", "batched-mixed",
-                  "driver:optimize", "driver:mpc", "driver:icp", "driver:second-call", "first-step-inf"]}
+                  "driver:optimize", "driver:optimize-again", "driver:mpc", "driver:icp", "driver:second-call", "first-step-inf"]}
 
 DYADIC = (0.5, 0.25, 1.0, 0.125, 2.0)
 KINDS = ("dec_big", "dec_small", "equal", "increase", "exact_thr", "below_tol", "rejected")
@@ -555,6 +555,18 @@ def _drive_optimize(plan, out, tr):
             raise Violation("C20.liveness", "StopOnPlateau.optimize made more than %d scheduler steps with "
                             "steps=%d" % (sch.cap, steps), o["id"], "optimize:cap")
         n = len(sch.seen)
+        # a stopped scheduler stays stopped: a second optimize() on the same object must not step again
+        calls_before = solver.calls
+        try:
+            with contextlib.redirect_stdout(io.StringIO()):
+                sch.optimize(inp)
+        except StepCap:
+            raise Violation("C20.liveness", "second optimize() on a stopped scheduler exceeded the step cap", o["id"], "optimize:cap2")
+        if len(sch.seen) != n or solver.calls != calls_before:
+            raise Violation("C20.continual", "optimize() on a scheduler that had already stopped made %d more scheduler step(s) and "
+                            "%d more solver call(s) (budget steps=%d, %d steps already made)" %
+                            (len(sch.seen) - n, solver.calls - calls_before, steps, n), o["id"], "optimize:restep")
+        out.probe("driver:optimize-again")
         out.sim_time += n; out.ops += 1
         out.probe("driver:optimize")
         tr.ev("optimize", o["id"], n, solver.calls, [list(x) for x in sch.seen])
